@@ -201,6 +201,7 @@ func TestC32(t *testing.T) {
 				proto uint8
 				tags  map[string]string
 				tr    *qTracker
+				limit int // raised query response limit (0 = default 1024)
 			}
 			perm := rng.Perm(len(names))
 			var nodes []*node
@@ -215,6 +216,10 @@ func TestC32(t *testing.T) {
 				if i == 0 && rng.Intn(3) != 0 {
 					x.proto = uint8(4 + rng.Intn(2)) // queries need protocol 4 at the issuer
 				}
+				if i == 1 && rng.Intn(3) == 0 {
+					// the responder is configured for larger responses than the nodes that relay them
+					x.limit = []int{2048, 4096, 9000}[rng.Intn(3)]
+				}
 				for attempt := 0; ; attempt++ {
 					x.tags = c32Tags(rng)
 					want := c32Len(x.tags, x.proto)
@@ -223,7 +228,11 @@ func TestC32(t *testing.T) {
 						return
 					}
 					proto := x.proto
+					limit := x.limit
 					nd, err := cluster.Start(nw, cluster.Opts{Name: x.name, IP: x.ip, Profile: "passive", Tags: x.tags, Mutate: func(c *serf.Config) {
+						if limit > 0 {
+							c.QueryResponseSizeLimit = limit
+						}
 						c.ProtocolVersion = proto
 						c.MemberlistConfig.EnableCompression = false
 						c.MsgpackUseNewTimeFormat = rng.Intn(2) == 0
@@ -543,6 +552,11 @@ func TestC32(t *testing.T) {
 							}
 						}
 						resp := c32Bytes(rng, 300)
+						if B.limit > 0 && rng.Intn(4) != 0 {
+							resp = make([]byte, 700+rng.Intn(B.limit-900))
+							rng.Read(resp)
+							counts["responses_larger_than_the_relays_own_limit_offered"]++
+						}
 						if q == nil {
 							add("query/not-delivered", fmt.Sprintf("query %q with filters nodes=%q tags=%q selecting the receiver was not delivered there", qname, params.FilterNodes, params.FilterTags), nil)
 						} else {
